@@ -13,7 +13,7 @@
    ([v mod 2^256]).  [raw_slot cl i] is raw slot i (0..7) of the claim.
    [slot_path sp i] is the field path the parsed attribute [sp] designates for
    raw slot i (2 = slotIndexA, 3 = slotIndexB, 6 = slotValueA, 7 = slotValueB). *)
-From Coq Require Import ZArith List String Permutation.
+From Coq Require Import ZArith List String Ascii Permutation.
 From GSP Require Import Base.Prelude Claim.Model Claim.Theory Claim.Slots.
 Import ListNotations.
 Open Scope Z_scope.
@@ -139,3 +139,31 @@ Theorem C17_facade :
      | None => Err "loader-not-defined" end).
 Proof. exact facade_delegates. Qed.
 Print Assumptions C17_facade.
+
+(* the attribute grammar: `iden3:v1:` followed by 1..4 parts `slotXxxY=path` joined
+   by `&` (paths without `&` and `=`) parses to the assignment it spells, a
+   repeated key taking its last value *)
+Theorem C17_grammar :
+  forall first rest,
+  Forall (fun kp => In (fst kp) [2; 3; 6; 7] /\
+                    forall c, In c (str_to_list (snd kp)) -> c <> "&"%char /\ c <> "="%char) (first :: rest) ->
+  (List.length rest <= 3)%nat ->
+  parse_serialization_attr (render_attr first rest) =
+  Ok (fold_left (fun acc kp => set_slot acc (fst kp) (snd kp)) (first :: rest) paths_empty).
+Proof. exact parse_render. Qed.
+Print Assumptions C17_grammar.
+
+(* lookup by type name and by type IRI agree whenever the context has a single
+   type term that is called / identified by either string (two terms sharing one
+   @id are told apart by name but not by IRI: Slots.ex_alias_types) *)
+Theorem C17_name_or_iri :
+  forall ts t f d,
+  d = SCtx (Some ts) ->
+  (forall t', In t' ts ->
+     (t_is_map t' && match t_ctx t' with Some _ => true | None => false end)%bool = true ->
+     (String.eqb (t_name t') (t_name t) || String.eqb (t_id t') (t_name t))%bool = true \/
+     (String.eqb (t_name t') (t_id t) || String.eqb (t_id t') (t_id t))%bool = true -> t' = t) ->
+  serialization_attr_of_context ts (t_name t) = serialization_attr_of_context ts (t_id t) /\
+  get_field_slot_index f (t_name t) d = get_field_slot_index f (t_id t) d.
+Proof. exact name_or_iri. Qed.
+Print Assumptions C17_name_or_iri.
